@@ -18,6 +18,15 @@ namespace Ch
 @[reducible] def rbrace : Nat := 125  -- '}'
 end Ch
 
+open Lean in
+/-- `b!"text"`: the bytes of a string literal as an explicit `List Nat` literal, expanded at
+elaboration time, so that it reduces in the kernel (`str "text"` computes the same list at
+run time but does not reduce by `decide`/`rfl`). -/
+macro:max "b!" s:str : term => do
+  let bytes := s.getString.toUTF8.toList.map (·.toNat)
+  let elems : Array (TSyntax `term) := (bytes.map (fun n => (quote n : TSyntax `term))).toArray
+  `(([$elems,*] : List Nat))
+
 /-- ASCII string literal → model string -/
 def str (s : String) : Str := s.toUTF8.toList.map (·.toNat)
 
